@@ -141,7 +141,7 @@ class CommitInstruction(MichelsonInstruction, prim='COMMIT'):
             ),
             message='list of operations + resulting storage',
         )
-        operations = ListType(items=list(res.items[0]))  # type: ignore
+        operations = type(res.items[0])(items=list(res.items[0]))  # type: ignore
         lazy_diff = []  # type: ignore
         storage = res.items[1].aggregate_lazy_diff(lazy_diff)
         stdout.append(format_stdout(f'END %default', [res], []))
